@@ -69,6 +69,26 @@ def listGet (l : List ℝ) (i : ℝ) : ℝ := l.getD ⌊i⌋.toNat 0
 /-- Python float `%` for a positive divisor -/
 def fmod (x y : ℝ) : ℝ := x - y * (⌊x / y⌋ : ℝ)
 
+def dateDiffDays (a : Int × Int × Int) (b : Option (Int × Int × Int)) : ℝ :=
+  match b with
+  | some b => ((dateDays a - dateDays b : ℤ) : ℝ)
+  | none => 0
+def isInt (x : ℝ) : Prop := ∃ n : ℤ, x = n
+instance (x : ℝ) : Decidable (isInt x) := Classical.propDecidable _
+
+/-- exact-arithmetic reading of `geodepy.angles.hp2dec`: `N` is the 13-decimal rounding of |hp| -/
+def hp2dec (hp : ℝ) : Except PyErr ℝ :=
+  let N : ℕ := (roundHalfEven (|hp| * 10 ^ 13)).natAbs
+  let deg : ℕ := N / 10 ^ 13
+  let frac : ℕ := N % 10 ^ 13
+  if frac / 10 ^ 12 > 5 then .error .ValueError
+  else if (frac / 10 ^ 10) % 10 > 5 then .error .ValueError
+  else
+    let mn : ℕ := frac / 10 ^ 11
+    let sec : ℝ := ((frac % 10 ^ 11 : ℕ) : ℝ) / 10 ^ 9
+    let d := sec / 3600 + (mn : ℝ) / 60 + (deg : ℝ)
+    .ok (if hp ≥ 0 then d else -d)
+
 theorem roundHalfEven_close (x : ℝ) : |(roundHalfEven x : ℝ) - x| ≤ 1 / 2 := by
   unfold roundHalfEven
   split_ifs with h1 h2
